@@ -41,6 +41,24 @@ def cases(tier, rng):
             ch = spec_notes_of(r, k)
             for i in range(len(ch)):
                 yield Case("chords.both", [rot(ch, i)], "built/%dnotes/rot%d" % (len(ch), i), kind=("built", r, k, i))
+    # complete stacks of thirds up to the thirteenth (five, six and seven notes, with the eleventh - more than any shorthand
+    # builds), every rotation: the two output forms must still have the same length and order and every name must construct
+    def stack(root, semis):
+        out = []
+        for j, sm in enumerate(semis):
+            l = LETTERS[(LETTERS.index(root[0]) + 2 * j) % 7]
+            diff = (spec_pc(root) + sm - NATURAL[l]) % 12
+            if diff > 6:
+                diff -= 12
+            out.append(canon(l, diff))
+        return out
+    for r in ["C", "A", "Eb", "F#", "Bb", "D", "G", "E"]:
+        for semis in ([0, 4, 7, 10, 14, 17, 21], [0, 3, 7, 10, 14, 17, 21], [0, 4, 7, 11, 14, 17, 21], [0, 4, 7, 10, 14, 18, 21],
+                      [0, 3, 6, 10, 13, 17, 20]):
+            for n in (5, 6, 7):
+                ch = stack(r, semis[:n])
+                for i in range(n):
+                    yield Case("chords.both", [rot(ch, i)], "stack/%dnotes" % n, kind=("random",))
     for t in itertools.product(POOL21, repeat=3):
         yield Case("chords.both", [list(t)], "triple", kind=("triple",))
     yield Case("chords.both", [[]], "trivial", kind=("trivial",))
